@@ -5,7 +5,8 @@ import common as C
 
 PROPS = ["Props/C02.v"]
 OBLIG = ["Oblig/C02Obl.v"]
-for extra_p, extra_o in (("Props/C02Records.v", "Oblig/C01Obl.v"), ("Props/C02Valid.v", "Oblig/C02ValidObl.v")):
+for extra_p, extra_o in (("Props/C02Records.v", "Oblig/C01Obl.v"), ("Props/C02Valid.v", "Oblig/C02ValidObl.v"),
+                         ("Props/C02Counts.v", "Oblig/C02CountsObl.v")):
     if os.path.exists(os.path.join(C.COQ, extra_p)):
         PROPS.append(extra_p)
         OBLIG.append(extra_o)
@@ -31,7 +32,60 @@ def build(ctx):
         ctx.log("ocaml c02v", out[-3000:])
         if not ok:
             ctx.diag.append("extracted rule interpreter (valid => width) does not build: " + out[-600:])
+    if os.path.exists(os.path.join(C.COQ, "Extract", "C02COUNTS.v")):
+        ok, out = C.build_ocaml("c02counts")
+        ctx.log("ocaml c02counts", out[-3000:])
+        if not ok:
+            ctx.diag.append("extracted counts model (WrittenCounts.observe) does not build: " + out[-600:])
     return True
+
+
+# ---- control counts: the model's written lines and count columns against the real writer's text
+
+CDRV = os.path.join(C.BUILD, "ocaml", "c02counts", "driver")
+
+
+def counts_corr(ctx):
+    d = os.path.join(ctx.rundir, "ccorr")
+    os.makedirs(d, exist_ok=True)
+    if not os.path.exists(CDRV):
+        ctx.diag.append("counts correspondence could not run: no driver")
+        return
+    rc, out = C.sh([os.path.join(C.BIN, "c02counts"), "corr", "-out", d, "-n", str(ctx.scale(1800, 30000))], timeout=3000)
+    ctx.log("counts corr", out[-1500:])
+    if rc != 0:
+        ctx.diag.append("counts correspondence crashed: " + out[-300:])
+        return
+    try:
+        info = C.json.loads(out.strip().splitlines()[-1])
+    except ValueError:
+        info = {}
+    ctx.cov["counts_corr"] = {k: info.get(k) for k in ("cases", "residues", "kinds", "secs")}
+    missing = [str(r) for r in range(10) if not info.get("residues", {}).get(str(r))]
+    if missing:
+        ctx.diag.append("counts correspondence: no generated file with record-count residue " + ",".join(missing))
+    if info.get("cases", 0) < 1500:
+        ctx.diag.append("counts correspondence: only %s cases" % info.get("cases"))
+    if info.get("generator_failures"):
+        ctx.diag.append("counts correspondence: Create / Validate refuse generated files: %s" % C.json.dumps(info["generator_failures"])[:400])
+    C.sh("%s %s > %s" % (CDRV, os.path.join(d, "cases.txt"), os.path.join(d, "model.txt")), timeout=3000)
+    ctx.compare("physical and declared counts of the model's written lines (fdump of the real file) vs the real writer's text; tabulated / fits / bounds flags",
+                os.path.join(d, "model.txt"), os.path.join(d, "impl.txt"), os.path.join(d, "desc.txt"))
+
+
+def counts_oracle(ctx, n, sub="coracle"):
+    d = os.path.join(ctx.rundir, sub)
+    os.makedirs(d, exist_ok=True)
+    rc, out = C.sh([os.path.join(C.BIN, "c02counts"), "oracle", "-out", d, "-n", str(n),
+                    "-corpus", os.path.join(C.VERIF, "corpus", "C02")], timeout=3000)
+    ctx.log("counts oracle", out[-800:])
+    if rc != 0:
+        ctx.diag.append("counts oracle crashed rc=%d: %s" % (rc, out[-300:]))
+    before = len(ctx.fails)
+    summ = ctx.read_jsonl(os.path.join(d, "oracle.jsonl"))
+    for f in ctx.fails[before:]:
+        f["input"] = f.get("case")
+    return summ
 
 
 # ---- valid => width: the regenerated validation rules against the real Validate() methods
@@ -141,6 +195,8 @@ def search(ctx, factor):
     oracle(ctx, ctx.scale(400, 4000) * factor, ctx.scale(1500, 20000) * factor, "search")
     if os.path.exists(VDRV):
         valid_oracle(ctx, None, ctx.scale(1500, 15000) * factor, "vsearch")
+    if os.path.exists(os.path.join(C.BIN, "c02counts")):
+        counts_oracle(ctx, ctx.scale(600, 6000) * factor, "csearch")
     found = ctx.fails[before:]
     del ctx.fails[before:]
     return found
@@ -170,6 +226,11 @@ def run(ctx):
         plan = valid_corr(ctx)
         summ = valid_oracle(ctx, plan, ctx.scale(1500, 15000))
         ctx.add_summary(summ, "valid => width oracle")
+    if os.path.exists(os.path.join(C.COQ, "Extract", "C02COUNTS.v")):
+        ctx.trusted += ["count-statement translator (translator/countstmts.go -> Gen/CountStmts.v)"]
+        counts_corr(ctx)
+        summ = counts_oracle(ctx, ctx.scale(600, 6000))
+        ctx.add_summary(summ, "control counts oracle")
 
 
 def replay(path):
@@ -178,9 +239,15 @@ def replay(path):
         print(out[-2000:])
         return 1
     try:
-        src = (C.json.load(open(path)).get("input") or {}).get("source")
+        rp = C.json.load(open(path))
+        src = (rp.get("input") or {}).get("source")
+        counts_text = str(rp.get("key", "")).startswith("c02:count:") and bool((rp.get("input") or {}).get("output"))
     except (OSError, ValueError, AttributeError):
-        src = None
+        src, counts_text = None, False
+    if src in ("counts", "counts-gen") or counts_text:
+        rc, out = C.sh([os.path.join(C.BIN, "c02counts"), "replay", path], timeout=600)
+        print(out)
+        return 1 if rc != 0 else 0
     if src == "valid-width":
         rc, out = C.sh([os.path.join(C.BIN, "c02valid"), "replay", path], timeout=600)
         print(out)
